@@ -2,6 +2,7 @@
 import props_policy
 import props_sketch
 import props_store
+import props_cache
 
 COMMON_ASSUMPTIONS = [
     "rustc's type checker / MIR construction and the fact extractor's serialisation are trusted",
@@ -41,6 +42,18 @@ PROPS = {
                 explanation="Conditional writes decided structurally: insert_if_present passes only_update, try_update yields no item on NotExist/Reject/Conflict with "
                             "only_update, every mutation in store.try_update/try_insert (value swap, deadline write, expiry-index update, shard insert) is dominated "
                             "by the conflict test and should_update == true, rejected paths return the caller's value."),
+    "C16": dict(fn=props_cache.check_C16, floor={"sync": 20, "async": 20},
+                explanation="Cost plumbing decided stage by stage as value-flow on the MIR (both flavours): external_cost = Coster iff cost == 0; New carries cost+external, "
+                            "Update carries (cost, external); Item constructors map one-to-one; handle_item charges calculate_internal_cost(cost) (+external for updates); "
+                            "calculate_internal_cost adds size_of::<StoreItem<V>>() unless the builder's flag is set; rejected / evicted / swept items report the charged cost."),
+    "C17": dict(fn=props_cache.check_C17, floor={"sync": 35, "async": 35},
+                explanation="Metrics conservation decided as exactly-once / pairing rules over all paths: one Hit xor Miss per open lookup; CostAdd per admission, CostEvict+KeyEvict "
+                            "per released charge, RejectSets per rejection; KeyUpdate + wrapping signed CostAdd delta on in-place updates; KeyAdd iff added; DropSets iff a non-update "
+                            "send fails; ratio/get/add shapes; METRIC_TYPES_ARRAY exhaustive and cleared stripe by stripe; one histogram bucket per sample."),
+    "C15": dict(fn=props_cache.check_C15, floor={"sync": 10, "async": 10},
+                explanation="Lookup -> estimator chain decided as must-call rules: get/get_mut push build_key(key).0 before the store lookup on every open path; the ring appends, flushes iff "
+                            "full and empties the buffer; LFUPolicy::push accounts each flushed batch exactly once as kept or dropped; one channel policy -> worker; a received batch is applied "
+                            "with admit.increments under the lock."),
 }
 
 NOT_APPLICABLE = {}
